@@ -22,7 +22,7 @@ ASSUMPTIONS = ['the harness influence-set functions cover every node whose rate 
 BUDGET = {'quick': 160, 'thorough': 1500}
 CHUNK = {'quick': 10, 'thorough': 40}
 CASE_TIMEOUT = 300
-REQUIRED = ['steps_law_checked', 'clock_draws_checked', 'selections_checked', 'thresholds_checked', 'chooser_calls_checked', 'terminations_checked',
+REQUIRED = ['steps_law_checked', 'clock_draws_checked', 'selections_checked', 'thresholds_checked', 'chooser_calls_checked', 'terminations_checked', 'one_shot_influence_iterables',
             'counts_follow_statuses', 'e3_states_expanded', 'rate_zero_after_event_seen']
 
 
@@ -100,7 +100,7 @@ def gen_cases(tier, seed):
         out.append({'kind': 'e2', 'graph': desc, 'model': m, 'params': [r.choice([0.3, 0.7, 1.0, 2.3]), r.choice([0.3, 1.0, 1.9])],
                     'IC': [r.choice([0, 0, 1]) for _ in range(desc['n'])], 'tmin': r.choice([0, -2, 1.5]),
                     'tmax': r.choice(['inf', 1.0, 3.0]) if m in ('sir', 'threshold', 'watts', 'kofn', 'global') else r.choice([0.5, 1.5]),
-                    'full': r.random() < 0.5, 'seed': cs})
+                    'full': r.random() < 0.5, 'seed': cs, 'infl_form': r.choice(['list', 'tuple', 'set', 'iterator', 'generator', 'dictkeys'])})
     nmax = 4 if q else 5
     k = 0
     for desc in gen.atlas(nmax, 2):
@@ -111,7 +111,8 @@ def gen_cases(tier, seed):
             d = dict(desc)
             d['labels'] = 'int'
             out.append({'kind': 'e3', 'graph': d, 'model': m, 'params': [r.choice([0.7, 1.0, 2.3]), r.choice([0.3, 1.9])],
-                        'IC': [1 if i == 0 else r.choice([0, 0, 1]) for i in range(d['n'])], 'tmin': 0, 'tmax': 1000.0, 'full': True, 'seed': cs})
+                        'IC': [1 if i == 0 else r.choice([0, 0, 1]) for i in range(d['n'])], 'tmin': 0, 'tmax': 1000.0, 'full': True, 'seed': cs,
+                        'infl_form': ['list', 'iterator', 'set', 'generator', 'tuple', 'dictkeys'][k % 6]})
     return out
 
 
@@ -119,12 +120,30 @@ def run_case(case):
     import EoN
     res = new_result()
     G, lab = gen.build_graph(case['graph'])
-    rate, chooser, infl, sts = model(case['model'], case['params'])
+    rate, chooser, infl0, sts = model(case['model'], case['params'])
+    # the influence set may be any iterable the user likes: list, tuple, set, one-shot iterator / generator (e.g. G.neighbors(node)), dict view
+    form = case.get('infl_form', 'list')
+
+    def infl(Gx, node, status, parameters):
+        out = list(infl0(Gx, node, status, parameters))
+        if form == 'tuple':
+            return tuple(out)
+        if form == 'set':
+            return set(out)
+        if form == 'iterator':
+            return iter(out)
+        if form == 'generator':
+            return (x for x in out)
+        if form == 'dictkeys':
+            return dict.fromkeys(out).keys()
+        return out
     nodes = list(G)
     IC = {lab(i): sts[min(case['IC'][i], len(sts) - 1)] for i in range(case['graph']['n'])}
     tmin = case['tmin']
     tmax = float('inf') if case['tmax'] == 'inf' else (tmin + case['tmax'] if case['kind'] == 'e2' else case['tmax'])
     tag = 'Gillespie_complex_contagion|%s' % case['model']
+    if form in ('iterator', 'generator'):
+        bump(res, 'one_shot_influence_iterables')
     chooser_calls = []
 
     def rec_chooser(Gx, node, status, parameters):
